@@ -83,7 +83,90 @@ def _eval(args) -> dict:
         return {"operator": op, "site": desc, "reported": False, "by": f"crash: {type(e).__name__}: {e}"}
 
 
-SWEEPS = {"C12": mutants_purity, "C03": mutants_normalized, "C17": mutants_normalized}
+CMP_ALT = {ast.LtE: ["<", ">="], ast.GtE: [">", "<="], ast.Lt: ["<=", ">"], ast.Gt: [">=", "<"]}
+CMP_SRC = {ast.LtE: "<=", ast.GtE: ">=", ast.Lt: "<", ast.Gt: ">"}
+
+
+def _functions_named(m, names: set[str]):
+    for node in ast.walk(m.tree):
+        if isinstance(node, ast.FunctionDef) and node.name in names:
+            yield node
+
+
+def mutants_comparisons(prog: Program) -> list[tuple[str, str, str, str]]:
+    """O6: every order comparison inside the membership tests replaced by its strict/non-strict twin and by its mirror image"""
+    out = []
+    for m in prog.modules.values():
+        if not m.rel.endswith("shapes.py"):
+            continue
+        src = m.source
+        for fn in _functions_named(m, {"contains"}):
+            for node in ast.walk(fn):
+                if isinstance(node, ast.Compare) and len(node.ops) == 1 and type(node.ops[0]) in CMP_ALT:
+                    l = ast.get_source_segment(src, node.left)
+                    r = ast.get_source_segment(src, node.comparators[0])
+                    if l is None or r is None:
+                        continue
+                    for alt in CMP_ALT[type(node.ops[0])]:
+                        out.append((f"O6 comparison {CMP_SRC[type(node.ops[0])]} -> {alt}", m.rel, f"{m.rel}:{node.lineno}: {ast.unparse(node)[:50]} -> {alt}",
+                                    _replace(src, node, f"{l} {alt} {r}")))
+    return out
+
+
+def mutants_closed_forms(prog: Program) -> list[tuple[str, str, str, str]]:
+    """O7: in det / adjugate / hat_matrix / _minor_indices: every constant index of a matrix entry bumped to the next value, every binary +/- between
+    products flipped, every literal index table entry changed, every `axis=` of np.delete changed"""
+    out = []
+    for m in prog.modules.values():
+        if not m.rel.endswith("utils/math.py"):
+            continue
+        src = m.source
+        for fn in _functions_named(m, {"det", "adjugate", "hat_matrix", "_minor_indices", "inv"}):
+            for node in ast.walk(fn):
+                if isinstance(node, ast.Subscript) and isinstance(node.slice, ast.Tuple) and isinstance(node.value, ast.Name) and node.value.id == "A":
+                    for k, e in enumerate(node.slice.elts):
+                        if isinstance(e, ast.Constant) and isinstance(e.value, int) and not isinstance(e.value, bool):
+                            new = (e.value + 1) % 3 if fn.name == "det" else 1 - e.value
+                            out.append(("O7 entry index changed", m.rel, f"{m.rel}:{node.lineno}: {ast.unparse(node)} index {k} -> {new}", _replace(src, e, str(new))))
+                if fn.name == "det" and isinstance(node, ast.BinOp) and isinstance(node.op, (ast.Add, ast.Sub)):
+                    l = ast.get_source_segment(src, node.left)
+                    r = ast.get_source_segment(src, node.right)
+                    if l and r:
+                        op = "-" if isinstance(node.op, ast.Add) else "+"
+                        out.append(("O7 sign of a term flipped", m.rel, f"{m.rel}:{node.lineno}: ... {op} {ast.unparse(node.right)[:40]}", _replace(src, node, f"{l} {op} {r}")))
+                if isinstance(node, ast.List) and node.elts and all(isinstance(x, ast.Constant) and isinstance(x.value, int) for x in node.elts) and len(node.elts) <= 3:
+                    for k, e in enumerate(node.elts):
+                        new = (e.value + 1) % max(2, len(node.elts))
+                        out.append(("O7 index table entry changed", m.rel, f"{m.rel}:{node.lineno}: {ast.unparse(node)} entry {k} -> {new}", _replace(src, e, str(new))))
+                if isinstance(node, ast.keyword) and node.arg == "axis" and isinstance(node.value, ast.Constant) and fn.name == "_minor_indices":
+                    out.append(("O7 deleted axis changed", m.rel, f"{m.rel}:{node.value.lineno}: axis={node.value.value} -> {3 - node.value.value}",
+                                _replace(src, node.value, str(3 - node.value.value))))
+                if isinstance(node, ast.Slice) and fn.name == "adjugate" and node.lower is not None and isinstance(node.lower, ast.Constant):
+                    out.append(("O7 sign-pattern slice start changed", m.rel, f"{m.rel}:{node.lower.lineno}: start {node.lower.value} -> {1 - node.lower.value}",
+                                _replace(src, node.lower, str(1 - node.lower.value))))
+    return out
+
+
+def mutants_measures(prog: Program) -> list[tuple[str, str, str, str]]:
+    """O8: numeric constants and exponents in the measure members changed by one"""
+    out = []
+    for m in prog.modules.values():
+        if not m.rel.endswith("curve.py"):
+            continue
+        src = m.source
+        for fn in _functions_named(m, {"area", "volume", "_alpha"}):
+            for node in ast.walk(fn):
+                if isinstance(node, ast.Constant) and isinstance(node.value, int) and not isinstance(node.value, bool):
+                    out.append(("O8 constant + 1", m.rel, f"{m.rel}:{node.lineno}: {fn.name}: {node.value} -> {node.value + 1}", _replace(src, node, str(node.value + 1))))
+                if isinstance(node, ast.BinOp) and isinstance(node.op, ast.Pow):
+                    r = ast.get_source_segment(src, node.right)
+                    if r:
+                        out.append(("O8 exponent + 1", m.rel, f"{m.rel}:{node.lineno}: {fn.name}: ** {r} -> ** ({r} + 1)", _replace(src, node.right, f"({r} + 1)")))
+    return out
+
+
+SWEEPS = {"C12": mutants_purity, "C03": mutants_normalized, "C17": mutants_normalized, "C16": mutants_comparisons, "C20": mutants_closed_forms,
+          "C13": mutants_measures}
 
 
 def run(run: Run, prog: Program, seed: int) -> None:
